@@ -63,7 +63,7 @@ def _edge_union(c, tag, rp, rc, L):
     return hemi + cone + far
 
 
-def h_collinear(c, shape, axis, sign, equal_r=False):
+def h_collinear(c, shape, axis, sign, equal_r=False, origin0=False):
     from swcgeom.analysis import get_volume
     from swcgeom.core import Tree
 
@@ -73,7 +73,7 @@ def h_collinear(c, shape, axis, sign, equal_r=False):
     r = [c.real(f"r{i}", lo=0, lo_strict=True) for i in range(n)]
     if equal_r:
         r = [r[0]] * n  # cylinders: one symbolic radius
-    o = [c.real("o" + k) for k in "xyz"]
+    o = [0, 0, 0] if origin0 else [c.real("o" + k) for k in "xyz"]  # origin0: the line passes through the origin (small-scale inputs replay without float32 offset noise)
     L = [None] + [c.real(f"L{i}", lo=0, lo_strict=True) for i in range(1, n)]
     tpos = [0] * n
     for i in range(1, n):
@@ -127,7 +127,7 @@ def h_feature(c):
 REACH = {"collinear": ["overlapping_neighbours", "level_ge_5"]}
 HARNESSES = [
     H("levels_1_2", h_levels_1_2, quick=[dict(n=k) for k in (1, 2, 3)], thorough=[dict(n=4)], functions=FUNCTIONS, bounds="every numbering of every tree with n<=3/4 nodes; symbolic coordinates and radii (>0); accuracy a symbolic integer in {1,2}"),
-    H("collinear", h_collinear, quick=[dict(shape="two", axis=0, sign=1), dict(shape="two", axis=2, sign=-1), dict(shape="middle", axis=1, sign=1, equal_r=True)],
+    H("collinear", h_collinear, quick=[dict(shape="two", axis=0, sign=1), dict(shape="two", axis=2, sign=-1), dict(shape="middle", axis=1, sign=1, equal_r=True), dict(shape="two", axis=1, sign=1, origin0=True)],
       thorough=[dict(shape="two", axis=a, sign=s) for a in range(3) for s in (1, -1)] + [dict(shape="chain3", axis=0, sign=1), dict(shape="middle", axis=1, sign=1)],
       functions=FUNCTIONS, opts=dict(oblig_timeout_ms=dict(quick=120000, thorough=600000)), expect_outside=True,
       bounds="2-node tree on +x / -z and 3-node root-in-the-middle on y with one common symbolic radius (quick); 2-node tree on all six directions, 3-node chain, 3-node root-in-the-middle (thorough); radii and lengths any reals with L >= both radii; accuracy a symbolic integer in [3,9]"),
